@@ -7,7 +7,7 @@
      - explicit idler, no poling, explicit angle -> Ok: no wavelength check at all
    The property says each of these is an error (Err).  So "lambda_s <= lambda_p is an error" and "never panics" are REFUTED. *)
 From Coq Require Import String List Bool ZArith QArith.
-From SpdVerif Require Import Base.NumOps Spec.ConfigSpec Gen.ConfigTables Gen.ConfigSites Model.ConfigTypes Model.Config Model.NumInst.
+From SpdVerif Require Import Base.CfgNumOps Spec.ConfigSpec Gen.ConfigTables Gen.ConfigSites Model.ConfigTypes Model.Config Model.NumInst.
 Import ListNotations.
 Local Open Scope Q_scope.
 
